@@ -1635,7 +1635,7 @@ def gen_linkto_programs(r, n):
         ops = [f"put tgt/{name} {hx(d)}"]
         tags = {"data": d, "key": key, "form": form}
         mode = r.pick(["oneshot", "oneshot_hash", "partial", "opts_bad_size", "opts_bad_sri", "preexisting", "partial_cd",
-                       "opts_small_size", "relink"])
+                       "opts_small_size", "relink", "relink_same", "relink_self"])
         if mode == "opts_small_size" and len(d) == 0:
             mode = "opts_bad_size"
         if mode == "relink":
@@ -1650,6 +1650,13 @@ def gen_linkto_programs(r, n):
             elif how == "rewrite":
                 ops.append(f"put tgt/gone{i} {hx(d + b' rewritten by its owner')}")
             tags["relink"] = how
+        if mode in ("relink_same", "relink_self"):
+            # the file is linked already (under another key): linking it again - by its own path, or through the
+            # cache's symlink for it - must answer ok, leave the address leading to the file (not to itself) and
+            # write nothing it does not have to
+            ops.append(f"link_to {r.pick('sa')} c0 {hx(b'first-' + key[:8])} abs:tgt/{name}")
+            if mode == "relink_self":
+                tgt = f"abs:c0/{L.content_rel(L.sri_of('sha256', d))}"
         if mode == "partial_cd":
             # the handle is opened (cache given as an absolute path), then the process' working directory
             # changes before the commit: a relative target still means the file named at open time
@@ -1690,7 +1697,7 @@ def gen_linkto_programs(r, n):
             if n_decl > 0 and r.chance(0.8):
                 ops.append(f"lread {l} {n_decl}")
             ops.append(f"lcommit {l}")
-        elif mode == "relink":
+        elif mode in ("relink", "relink_same", "relink_self"):
             ops.append(f"link_to {fl} c0 {hx(key)} {tgt}")
         elif mode == "opts_bad_sri":
             l = ids.new("L")
